@@ -359,7 +359,87 @@ def _build(route, args, kw):
     return ['ok', _cps(u)]
 
 
+# ---- dev-only: line coverage of the anchored functions (VERIF_COVERAGE=1 ./check C19 --no-coq) ----
+
+_COV = {'on': None, 'hit': set(), 'files': None}
+
+
+def _cov_targets():
+    """{filename: {lineno: function name}} for the anchored functions of C19"""
+    from ombott.router import radirouter, filter_factory
+    out = {}
+
+    def add(code, label, drop_first=True):
+        lines = {ln for _, _, ln in code.co_lines() if ln is not None}
+        if drop_first and code.co_name != '<lambda>':
+            lines.discard(code.co_firstlineno)           # the `def` line itself
+        d = out.setdefault(code.co_filename, {})
+        for ln in lines:
+            d.setdefault(ln, label)
+        for c in code.co_consts:
+            if hasattr(c, 'co_lines'):
+                add(c, label + '.' + c.co_name)
+
+    R = radirouter.Route
+    for name in ('__init__', 'url', 'params_signature', 'make_params_dict', 'parse_rule'):
+        f = R.__dict__[name]
+        f = getattr(f, '__func__', f)
+        add(f.__code__, 'Route.' + name)
+    F = filter_factory.FilterFactory
+    add(F.__dict__['make_filter'].__func__.__code__, 'FilterFactory.make_filter')
+    for k, lam in F.filters.items():
+        add(lam.__code__, 'FilterFactory.filters[%s]' % k)
+    add(filter_factory._RouteFilterExhaust.__init__.__code__, '_RouteFilterExhaust.__init__')
+    add(filter_factory._RouteFilterExhaust.get.__code__, '_RouteFilterExhaust.get')
+    return out
+
+
+def _cov_tracer(frame, event, arg):
+    fn = frame.f_code.co_filename
+    if fn not in _COV['files']:
+        return None
+    if event == 'line' or event == 'call':
+        _COV['hit'].add((fn, frame.f_lineno))
+    return _cov_tracer
+
+
+def _cov_report():
+    import sys
+    tg = _COV['files']
+    total = sum(len(v) for v in tg.values())
+    hit = sum(1 for fn, d in tg.items() for ln in d if (fn, ln) in _COV['hit'])
+    print('COVERAGE C19: %d / %d lines of the anchored functions reached' % (hit, total), file=sys.stderr)
+    for fn, d in sorted(tg.items()):
+        src = open(fn).read().split('\n')
+        for ln in sorted(d):
+            if (fn, ln) not in _COV['hit']:
+                print('  unreached %s:%d [%s] %s' % (fn.split('/ombott/')[-1], ln, d[ln], src[ln - 1].strip()),
+                      file=sys.stderr)
+
+
+def _cov_enabled():
+    import os
+    if _COV['on'] is None:
+        _COV['on'] = os.environ.get('VERIF_COVERAGE') == '1'
+        if _COV['on']:
+            import atexit
+            _COV['files'] = _cov_targets()
+            atexit.register(_cov_report)
+    return _COV['on']
+
+
 def run_impl(case):
+    if _cov_enabled():
+        import sys
+        sys.settrace(_cov_tracer)
+        try:
+            return _observe(case)
+        finally:
+            sys.settrace(None)
+    return _observe(case)
+
+
+def _observe(case):
     try:
         R, route = _router(case['rule'])
     except Exception as e:
